@@ -124,15 +124,15 @@ class _RunOne:
         mod = self.mod
         seed = common.derive_seed(self.base_seed, mod.PROPERTY, idx)
         case = mod.generate(seed, self.tier, idx)
-        if isinstance(case, dict) and seed % 10 == 3 and not case.get("skip"):
+        if isinstance(case, dict) and seed % 10 == 3 and not case.get("skip") and not case.get("pinned"):
             # configuration swarm: the library's loggers at DEBUG in 10 % of the runs
             case["_log_level"] = 10
             agg.count("fault:log_level_DEBUG(runs)")
-        if isinstance(case, dict) and seed % 20 == 7 and not case.get("skip"):
+        if isinstance(case, dict) and seed % 20 == 7 and not case.get("skip") and not case.get("pinned"):
             # ... and warnings treated as errors in 5 %
             case["_warnings"] = "error"
             agg.count("fault:warnings_as_errors(runs)")
-        if isinstance(case, dict) and seed % 25 == 11 and not case.get("skip"):
+        if isinstance(case, dict) and seed % 25 == 11 and not case.get("skip") and not case.get("pinned"):
             # ... and no usable standard streams in 4 %
             case["_stdout"] = "none" if seed % 50 == 11 else "writeonly"
             agg.count("fault:no_standard_streams(runs)")
